@@ -13,6 +13,8 @@ threads and every schedule):
   * `C13_handshake_once`            handshakeFn runs at most once; every caller returns its result
   * `C13_close_excludes_new_writes` after Close set the low bit of activeCall no call passes the CAS
                                     loop, the bit stays, exactly one Close wins
+  * `C13_close_never_waits_for_handshake`  goroutines parked in a transport read (handshake, Read)
+                                    hold no mutex Close needs before it closes the transport
   * `C13_checker_sound_complete`    the executable `isWholeInterleaving` used by the oracle on the
                                     REAL peer stream decides `WholeInterleaving`
   * `C13_facts`, `C13_code`         the facts of THIS tree the instantiations rely on
@@ -235,6 +237,67 @@ example :
     let s := run AcM (acInit 1 2) [0, 1, 1, 0, 0, 2]
     s.ths = [.wRefused, .cWon 0, .cRefused] ∧ s.sh = 1 := by decide
 
+/-! ### Close does not wait for the handshake or for readers -/
+
+/-- what the extracted programs say (both stacks): no mutex that `Close` acquires before its
+(last) transport close is ever held across a transport read by any method.  In particular Close
+takes neither handshakeMutex nor `in` before closing the transport. -/
+theorem C13_close_locks_extracted :
+    (∀ progs ∈ [Facts.tlcp.lockProgs, Facts.dtlcp.lockProgs],
+      let close := lookupProg progs "Close"
+      (beforeLastClose close ++ close.drop (beforeLastClose close).length = close) ∧
+      (∃ e ∈ close, e.1 = 8) ∧
+      (∀ l ∈ acquires (ofEvents Unit (beforeLastClose close)), ∀ p ∈ progs, l ∉ heldAtReads [] p.2)) ∧
+    (∀ l ∈ [lkHandshake, lkIn], (∃ p ∈ Facts.tlcp.lockProgs, l ∈ heldAtReads [] p.2) ∧
+      (∃ p ∈ Facts.dtlcp.lockProgs, l ∈ heldAtReads [] p.2)) := by
+  decide
+
+/-- "Close unblocks pending calls", the part a lock model can carry: however many other
+goroutines are PARKED (never scheduled again) while holding mutexes that some method holds
+across a transport read — a Handshake waiting for the peer under handshakeMutex + in, a Read
+under in — a goroutine calling `Close` runs, on its own, up to and including its transport
+close: it never needs a mutex such a goroutine holds.  (What is not covered: Close takes `out`
+for close_notify; a goroutine parked in a transport WRITE under `out` that is not a Write-like
+call — those make tlcp's Close skip close_notify, fact `closeSkipsNotifyWhenCallInFlight`, and
+dtlcp closes the transport first — can delay Close, as in crypto/tls.  That the blocked calls
+then really return is a runtime observation: scenario `silent`.) -/
+theorem C13_close_never_waits_for_handshake (progs : List (String × List (Nat × Nat)))
+    (hprogs : progs = Facts.tlcp.lockProgs ∨ progs = Facts.dtlcp.lockProgs)
+    (a b : List (Thread Unit))
+    (hparked : ∀ u ∈ a ++ b, ∀ l ∈ u.held, ∃ p ∈ progs, l ∈ heldAtReads [] p.2)
+    (sh : Shared Unit) :
+    ∃ th' sh', Reach (LockM Unit)
+        ⟨a ++ ({ prog := ofEvents Unit (lookupProg progs "Close") } : Thread Unit) :: b, sh⟩
+        ⟨a ++ th' :: b, sh'⟩ ∧
+      th'.prog = ofEvents Unit ((lookupProg progs "Close").drop (beforeLastClose (lookupProg progs "Close")).length) := by
+  have hmem : progs ∈ [Facts.tlcp.lockProgs, Facts.dtlcp.lockProgs] := by
+    rcases hprogs with rfl | rfl <;> simp
+  obtain ⟨hsplit, _, hdisj⟩ := C13_close_locks_extracted.1 progs hmem
+  have hord : ordered id [] (ofEvents Unit (lookupProg progs "Close")) = true := by
+    have h := C13_lock_order_extracted.2
+    rcases hprogs with rfl | rfl
+    · exact (h ("Close", lookupProg Facts.tlcp.lockProgs "Close") (by decide)).1
+    · exact (h ("Close", lookupProg Facts.dtlcp.lockProgs "Close") (by decide)).1
+  apply solo_run id a b (ofEvents Unit (beforeLastClose (lookupProg progs "Close"))) _ _ sh
+  · show ofEvents Unit (lookupProg progs "Close") = _
+    rw [← ofEvents_append, hsplit]
+  · exact hord
+  · intro u hu l hl hacq
+    obtain ⟨p, hp, hheld⟩ := hparked u hu l hl
+    exact hdisj l hacq p hp hheld
+
+/-- non-vacuity: a handshake parked in its transport read (holding handshakeMutex and `in`) and a
+Read parked under `in` do not stop Close in the model … -/
+example :
+    let parked : Thread Unit := { held := [lkIn, lkHandshake], prog := [.skip, .rel lkIn, .rel lkHandshake] }
+    let s0 : State (LockM Unit) := ⟨[parked, callerThread [lookupProg Facts.tlcp.lockProgs "Close"]], {}⟩
+    (run (LockM Unit) s0 (List.replicate 12 1)).ths.map (fun t => t.prog.length) = [3, 0] := by decide
+/-- … whereas a Close that first asks ConnectionState (handshakeMutex) stays blocked behind it -/
+example :
+    let parked : Thread Unit := { held := [lkIn, lkHandshake], prog := [.skip, .rel lkIn, .rel lkHandshake] }
+    let s0 : State (LockM Unit) := ⟨[parked, { prog := [.skip, .acq lkHandshake, .rel lkHandshake, .skip] }], {}⟩
+    (run (LockM Unit) s0 (List.replicate 12 1)).ths.map (fun t => t.prog.length) = [3, 3] := by decide
+
 /-! ### facts of this tree -/
 
 /-- The facts the instantiations above rely on, re-extracted from the Go AST on every run:
@@ -245,7 +308,8 @@ every transport write is guarded (see `emitsGuarded`), every consumption of plai
 happens under `in`; the Write-like calls enter through the `activeCall` CAS loop and Close
 sets the bit once; handshakeContext re-checks under the mutex and is the only caller of
 handshakeFn and the only writer of handshakeErr; the work key is touched only by Close and by
-establishKeys, both under workKeyMu; pa's `wrapped` is never read outside `lock`.  The last two
+establishKeys, both under workKeyMu; pa's `wrapped` is never read outside `lock`, written only by detect, and detect re-checks it
+after taking the lock (its callers test it, RELEASE the lock, then call detect).  The last two
 are about plain field accesses, which the lock model does not cover: they pin the shape of the
 repairs F46 / F20 so that a regression also moves a fact, but the evidence for them is the race
 detector. -/
@@ -278,7 +342,9 @@ theorem C13_facts :
     Facts.dtlcp.workKeyUsers =
       ["Conn.Close", "clientHandshakeState.establishKeys", "serverHandshakeState.establishKeys"] ∧
     (∀ p ∈ Facts.tlcp.lockPairs ++ Facts.dtlcp.lockPairs, p.1 = 3 → False) ∧
-    Facts.pa.wrappedAccessUnlocked = [] ∧
+    Facts.tlcp.closeSkipsNotifyWhenCallInFlight = true ∧
+    Facts.pa.wrappedAccessUnlocked = [] ∧ Facts.pa.detectRechecksUnderLock = true ∧
+    Facts.pa.wrappedWriters = ["detect"] ∧
     Facts.missing = [] := by
   decide
 
